@@ -515,6 +515,8 @@ def wrap(
     Also ensures that the `initial_indent` and `subsequent_indent` are not taken into
     account for the wrapping position.
     """
+    # Don't tear hyphenated words (e.g. `non-copyable`, `--flag`) apart
+    kwargs.setdefault("break_on_hyphens", False)
     # Empty and whitespace-only paragraphs (and texts) still produce one empty line
     [first, *rest] = [
         line
